@@ -23,6 +23,9 @@ func init() { register("C04", "fault_enumeration", runC04) }
 type c04Msg struct {
 	Enc   string `json:"enc"`
 	NRcpt int    `json:"nrcpt"`
+	// Unrenderable: S/MIME signing with a key type the signer refuses at write time: WriteTo fails before the first
+	// byte, inside the DATA phase
+	Unrenderable bool `json:"unrenderable,omitempty"`
 }
 
 type c04Config struct {
@@ -150,6 +153,13 @@ func runC04Case(r *ev.Run, c c04Case) c04Result {
 			r.HarnessError("C04 msg: " + err.Error())
 			return c04Result{}
 		}
+		if ms.Unrenderable {
+			k := gen.Keys()
+			if err := m.SignWithKeypair(k.EdKey, k.EdCert, nil); err != nil {
+				r.HarnessError("C04 msg: " + err.Error())
+				return c04Result{}
+			}
+		}
 		msgs = append(msgs, m)
 	}
 	var dialErr, sendErr, closeErr error
@@ -255,6 +265,29 @@ func runC04Case(r *ev.Run, c c04Case) c04Result {
 				viol("attribution:foreign-reply:"+tokVerb[tk], fmt.Sprintf("error of message %d carries the reply %s which answered a %s command of message %d: %s | transcript: %s", i, tk, tokVerb[tk], o, es, res.transcript), cmds)
 			}
 		}
+		// ... and to the command the error names as failing step
+		var sev *mail.SendError
+		if errors.As(m.SendError(), &sev) && sev != nil {
+			for verb, reason := range reasonOf {
+				if sev.Reason != reason {
+					continue
+				}
+				for _, tk := range tokenRe.FindAllString(es, -1) {
+					// (the reply to the RSET that cleans up after the failed step is reported along with it)
+					if v, known := tokVerb[tk]; known && v != verb && v != "RSET" {
+						viol("attribution:wrong-command:"+verb+"-got-"+v, fmt.Sprintf("message %d failed at %s according to its error, which carries the reply %s that answered a %s command: %s | transcript: %s", i, verb, tk, v, es, res.transcript), cmds)
+					}
+				}
+			}
+		}
+		if cfg.Msgs[i].Unrenderable {
+			r.Count("unrenderable_messages", 1)
+			for _, cm := range commits {
+				if cm.From == fmt.Sprintf("m%d@sender.example", i) && cm.Complete {
+					viol("committed-for-unrenderable-message", fmt.Sprintf("message %d cannot be rendered (signing fails), yet the server received a complete end-of-data for its transaction (%d bytes, accepted=%t) | transcript: %s", i, len(cm.Data), cm.Accepted, res.transcript), cmds)
+				}
+			}
+		}
 		for k, cr := range cmds {
 			if owner[k] != i || cr.ReplyCode < 400 || cr.Token == "" {
 				continue
@@ -291,6 +324,9 @@ func runC04Case(r *ev.Run, c c04Case) c04Result {
 		if dialErr != nil || sendErr != nil {
 			all8bitOK := true
 			for i := range msgs {
+				if cfg.Msgs[i].Unrenderable {
+					all8bitOK = false
+				}
 				if cfg.Msgs[i].Enc == "8bit" && (heloOnly || !hasCap(latestCaps, "8BITMIME")) {
 					all8bitOK = false
 				}
@@ -329,6 +365,8 @@ func c04Configs(thorough bool) []c04Config {
 		{Name: "starttls-mandatory", Caps: []string{"STARTTLS", "8BITMIME"}, CapsTLS: []string{"8BITMIME", "DSN"}, TLS: "mandatory", DSN: "hdrs-never", Msgs: []c04Msg{m(qp, 1)}, MaxDev: 1},
 		{Name: "auth-plain", Caps: []string{"AUTH PLAIN LOGIN", "8BITMIME"}, TLS: "none", Auth: "PLAIN", Msgs: []c04Msg{m(qp, 1), m(qp, 1)}, MaxDev: 1},
 		{Name: "auth-login", Caps: []string{"AUTH LOGIN", "DSN"}, TLS: "none", Auth: "LOGIN", Msgs: []c04Msg{m(qp, 2)}, MaxDev: 1},
+		{Name: "unrenderable-first-of-2", Caps: all, TLS: "none", Msgs: []c04Msg{{Enc: qp, NRcpt: 1, Unrenderable: true}, m(qp, 2)}, MaxDev: 1},
+		{Name: "unrenderable-second-of-3", Caps: all, TLS: "none", DSN: "default", Msgs: []c04Msg{m(qp, 1), {Enc: qp, NRcpt: 2, Unrenderable: true}, m(e8, 1)}, MaxDev: 1},
 		{Name: "implicit-tls-2x1", Caps: []string{"8BITMIME", "DSN", "AUTH PLAIN"}, TLS: "implicit", Auth: "PLAIN", DSN: "default", Msgs: []c04Msg{m(qp, 1), m(e8, 1)}, MaxDev: 1},
 		{Name: "multiline-2x2", Caps: all, TLS: "none", Multiline: true, Msgs: []c04Msg{m(qp, 2), m(e8, 2)}, MaxDev: 1},
 		{Name: "multiline-starttls-auth", Caps: []string{"STARTTLS", "AUTH PLAIN", "8BITMIME"}, CapsTLS: []string{"AUTH PLAIN", "DSN"}, TLS: "mandatory", Auth: "PLAIN", Multiline: true, DSN: "default", Msgs: []c04Msg{m(qp, 1), m(qp, 1)}, MaxDev: 1},
